@@ -8,10 +8,12 @@ cd $WT
 git checkout -q -- src 2>/dev/null || true
 echo "== demo on clean worktree"
 cargo build --release --offline 2>&1 | grep -E "^error|Finished" | head -2
-if [ -f $M/demo.sh ]; then (sh $M/demo.sh > /tmp/demo_clean.log 2>&1; echo "clean exit=$?"); fi
+if [ -f $M/demo.sh ]; then (bash $M/demo.sh > /tmp/demo_clean.log 2>&1; echo "clean exit=$?"); fi
+if [ -f $M/demo_test.rs ]; then cat $M/demo_test.rs >> src/chess/mod.rs; cargo test --release --offline demo_ 2>&1 | grep -E "^test result|panicked" | head -3; git checkout -q -- src; fi
 git apply $M/patch.diff
 cargo build --release --offline 2>&1 | grep -E "^error|Finished" | head -2
-if [ -f $M/demo.sh ]; then (sh $M/demo.sh > /tmp/demo_mut.log 2>&1; echo "mutant exit=$?"); fi
+if [ -f $M/demo.sh ]; then (bash $M/demo.sh > /tmp/demo_mut.log 2>&1; echo "mutant exit=$?"); fi
+if [ -f $M/demo_test.rs ]; then cat $M/demo_test.rs >> src/chess/mod.rs; cargo test --release --offline demo_ 2>&1 | grep -E "^test result|panicked" | head -3; fi
 git checkout -q -- src
 cd /verif
 git -C /repo apply $M/patch.diff
